@@ -13,7 +13,10 @@
  *                                  first one WITHOUT setting the text/grammar again; alignment requested (tag u<k>final)
  *   partial <k> ...                request an alignment after chunk k (0-based) of the streaming modes
  *   early 1                        also request an alignment right after decoder_start_utt
- *   preend 1                       also request an alignment after the last audio and before decoder_end_utt
+ *   preend 1                       also request an alignment after the last audio and before decoder_end_utt (tag preend;
+ *                                  u<k>preend in the further utterances)
+ *   json <level>:<start> ...       after every alignment request also call decoder_result_json(d, start, level) for each
+ *                                  pair (start = C99 hex float, passed to the library bit for bit)
  *   run
  *
  * At start the harness prints the acoustic-model tables the Lean model needs (MODEL .. ENDMODEL).
@@ -26,10 +29,15 @@
  *   W/P/S   the alignment through the flat iterators (alignment_words/phones/states + iter_seg + iter_name)
  *   CW/CP   the alignment through alignment_iter_children (index lists)
  *   SF/EF   the window arrays of the search, FINAL and TOK = the token stack (state_align_search.h)
+ *   J    <level> <start %a> <mantissa> <exponent> <frate> <hex of the returned line | null>: what
+ *        decoder_result_json(d, start, level) returned; start = mantissa * 2^exponent exactly
  *   SEN  (when `cfg` has senscr=1 .. not a decoder option, see `dumpsen`) per-frame senone scores of a hand-stepped
- *        second pass (same calls as decoder_alignment's loop) and TOK2 = its token stack
+ *        second pass (same calls as decoder_alignment's loop) and MFINAL/MTOK = its token stack
+ *   ROFF/RSEN/RFINAL/RTOK  (directive `renormprobe <score>`) the same hand-stepped pass started with the entry score
+ *        <score> (close to the renormalisation threshold) instead of 0: exercises renormalize_hmms
  */
 #include "common.h"
+#include <math.h>
 #include <soundswallower/acmod.h>
 #include <soundswallower/alignment.h>
 #include <soundswallower/bin_mdef.h>
@@ -64,6 +72,9 @@ static int nutts;
 static int partials[256], npartial, early, dumpsen, tmatskip, preend;
 static char addw[16][2][256];
 static int naddw;
+static int jlev[32], njson;
+static long renormprobe;
+static double jstart[32];
 static uint8 *tp_saved;
 
 static void out_flush(void) { fflush(stdout); }
@@ -298,7 +309,7 @@ static void print_tokens(const char *tag, state_align_search_t *sas)
 
 /* hand-stepped second pass: the same calls as the loop of decoder_alignment, on a fresh alignment built from
  * the same first-pass words, recording the senone scores every state saw */
-static void manual_second_pass(alignment_t *ref)
+static void manual_second_pass(alignment_t *ref, const char *pfx, int32 in_score)
 {
     alignment_t *al = alignment_init(d->d2p);
     alignment_iter_t *it;
@@ -314,12 +325,15 @@ static void manual_second_pass(alignment_t *ref)
         int sf = rs->sf[ph], ef = rs->ef[ph];
         alignment_add_word(al, e->id.wid, sf, ef - sf);
     }
-    if (alignment_populate(al) < 0) { printf("SEN error populate\n"); alignment_free(al); return; }
+    if (alignment_populate(al) < 0) { printf("%sSEN error populate\n", pfx[0] == 'M' ? "" : pfx); alignment_free(al); return; }
     sm = state_align_search_init("_verif_align", d->config, d->acmod, al);
-    if (!sm) { printf("SEN error init\n"); alignment_free(al); return; }
+    if (!sm) { printf("%sSEN error init\n", pfx[0] == 'M' ? "" : pfx); alignment_free(al); return; }
     sas = (state_align_search_t *)sm;
-    if (acmod_rewind(d->acmod) < 0) { printf("SEN error rewind\n"); search_module_free(sm); return; }
+    if (acmod_rewind(d->acmod) < 0) { printf("%sSEN error rewind\n", pfx[0] == 'M' ? "" : pfx); search_module_free(sm); return; }
     search_module_start(sm);
+    /* renormalisation probe: the same pass started from a score close to the renormalisation threshold
+     * (best_score - 0x300000 WORSE_THAN WORST_SCORE), so that renormalize_hmms runs after a few dozen frames */
+    if (in_score != 0) { hmm_in_score(&sas->hmms[0]) = in_score; printf("%sOFF %d\n", pfx, (int)in_score); }
     while (d->acmod->output_frame < outfr) {
         int fr = d->acmod->output_frame;
         int16 const *sen;
@@ -331,7 +345,7 @@ static void manual_second_pass(alignment_t *ref)
         for (i = 0; i < sas->n_phones; i++) act[i] = hmm_frame(&sas->hmms[i]) >= fr;
         if (search_module_step(sm, fr) < 0) { ok = 0; free(act); break; }
         sen = d->acmod->senone_scores;
-        printf("SEN %d", fr);
+        printf("%sSEN %d", pfx[0] == 'M' ? "" : pfx, fr);
         for (i = 0; i < sas->n_phones; i++)
             for (k = 0; k < sas->hmmctx->n_emit_state; k++)
                 printf(" %d", act[i] ? (int)sen[sas->hmms[i].senid[k]] : 0);
@@ -339,8 +353,8 @@ static void manual_second_pass(alignment_t *ref)
         free(act);
         acmod_advance(d->acmod);
     }
-    printf("SENEND %d\n", ok);
-    print_tokens("M", sas);
+    printf("%sSENEND %d\n", pfx[0] == 'M' ? "" : pfx, ok);
+    print_tokens(pfx, sas);
     search_module_free(sm);
 }
 
@@ -452,6 +466,29 @@ static void synth(const char *id, uint64_t seed, int kind, int T, int nw, char *
     search_module_free(sm);
 }
 
+/* the JSON observation point of the hierarchy: decoder_result_json(d, start, level) for every requested pair.
+ * Called last in a request: decoder_result_json calls decoder_alignment itself, which may rebuild (and free) the
+ * alignment object dumped above. */
+static void json_calls(void)
+{
+    int i;
+    int frate = config_int(decoder_config(d), "frate");
+    for (i = 0; i < njson; i++) {
+        int e = 0;
+        double m = frexp(jstart[i], &e);
+        long long mi = (long long)ldexp(m, 53);
+        const char *js = decoder_result_json(d, jstart[i], jlev[i]);
+        printf("J %d %a %lld %d %d ", jlev[i], jstart[i], mi, e - 53, frate);
+        if (js == NULL) printf("null\n");
+        else {
+            const unsigned char *c;
+            for (c = (const unsigned char *)js; *c; ++c) printf("%02x", *c);
+            printf("\n");
+        }
+        out_flush();
+    }
+}
+
 static void request(const char *tag)
 {
     seg_iter_t *seg;
@@ -487,7 +524,7 @@ static void request(const char *tag)
         out_flush();
         al2 = decoder_alignment(d);
         printf("REUSE %s\n", al2 == NULL ? "null" : "nonnull-after-null");
-        if (al2 == NULL) { printf("ENDREQ\n"); out_flush(); return; }
+        if (al2 == NULL) { json_calls(); printf("ENDREQ\n"); out_flush(); return; }
         /* a second call handed out an alignment although the first one failed: dump it */
         al = al2;
     } else {
@@ -511,8 +548,10 @@ static void request(const char *tag)
         for (i = 0; i < sas->n_phones; i++) printf(" %d", sas->ef[i]);
         printf("\n");
         print_tokens("", sas);
-        if (dumpsen) manual_second_pass(al);
+        if (dumpsen) manual_second_pass(al, "M", 0);
+        if (dumpsen && renormprobe) manual_second_pass(al, "R", (int32)renormprobe);
     }
+    json_calls();
     printf("ENDREQ\n");
     out_flush();
 }
@@ -568,7 +607,13 @@ static void run_case(void)
                     uk++;
                 }
             }
-            if (preend && u == 0) request("preend"); /* all audio processed, utterance not yet ended */
+            /* all audio processed, utterance not yet ended; also in the further utterances (an aligner left over
+             * from the previous utterance must not answer: with full_utt the frame count equals the previous total) */
+            if (preend) {
+                if (u == 0) snprintf(tag, sizeof(tag), "preend");
+                else snprintf(tag, sizeof(tag), "u%dpreend", u);
+                request(tag);
+            }
             decoder_end_utt(d);
             if (u == 0) snprintf(tag, sizeof(tag), "final");
             else snprintf(tag, sizeof(tag), "u%dfinal", u);
@@ -595,7 +640,7 @@ int main(int argc, char **argv)
         if (n == 0) continue;
         if (!strcmp(w[0], "case") && n >= 2) {
             snprintf(caseid, sizeof(caseid), "%s", w[1]);
-            ncfg = 0; npartial = 0; early = 0; dumpsen = 0; gkind = 0; tmatskip = 0; naddw = 0; preend = 0;
+            ncfg = 0; npartial = 0; early = 0; dumpsen = 0; gkind = 0; tmatskip = 0; naddw = 0; preend = 0; njson = 0; renormprobe = 0;
             strcpy(mode, "stream"); chunk = 4096; nchunkseq = 0; nutts = 0;
         } else if (!strcmp(w[0], "cfg") && n == 3 && ncfg < MAXCFG) {
             snprintf(cfgk[ncfg], 64, "%s", w[1]);
@@ -637,12 +682,22 @@ int main(int argc, char **argv)
             if (chunk < 1) chunk = 1;
         } else if (!strcmp(w[0], "partial")) {
             for (i = 1; i < n && npartial < 256; i++) partials[npartial++] = atoi(w[i]);
+        } else if (!strcmp(w[0], "json")) {
+            for (i = 1; i < n && njson < 32; i++) {
+                char *x = strchr(w[i], ':');
+                if (!x) continue;
+                jlev[njson] = atoi(w[i]);
+                jstart[njson] = strtod(x + 1, NULL);
+                njson++;
+            }
         } else if (!strcmp(w[0], "early") && n == 2) {
             early = atoi(w[1]);
         } else if (!strcmp(w[0], "preend") && n == 2) {
             preend = atoi(w[1]);
         } else if (!strcmp(w[0], "dumpsen") && n == 2) {
             dumpsen = atoi(w[1]);
+        } else if (!strcmp(w[0], "renormprobe") && n == 2) {
+            renormprobe = atol(w[1]);
         } else if (!strcmp(w[0], "synth") && n >= 6) {
             synth(w[1], (uint64_t)strtoull(w[2], NULL, 10), atoi(w[3]), atoi(w[4]), n - 5, w + 5);
         } else if (!strcmp(w[0], "run")) {
